@@ -45,12 +45,171 @@ Proof.
 Qed.
 Print Assumptions C05_scopes_are_dropped.
 
+(* the arms of a switch likewise: each is tried, and the chosen body runs, in a scope of its own *)
+Theorem C05_switch_arm_scope : forall n arms st cur v st' r,
+  switch_arms (eval n) st cur v arms = (st', r) -> preserves_all st st'.
+Proof. exact switch_scope. Qed.
+Print Assumptions C05_switch_arm_scope.
+
 (* ... and then every name resolves, from every existing frame, exactly as before *)
 Theorem C05_resolution_unchanged : forall st st' f x,
   preserves_all st st' -> f < List.length (frames st) ->
   resolve (frames st') f x = resolve (frames st) f x.
 Proof. exact resolve_preserved. Qed.
 Print Assumptions C05_resolution_unchanged.
+
+(* `=` resolves to the NEAREST enclosing frame that declares the name *)
+Theorem C05_resolve_nearest : forall fs f x g, resolve fs f x = Some g <-> nearest fs x f g.
+Proof. exact resolve_nearest. Qed.
+Print Assumptions C05_resolve_nearest.
+
+(* x := e: fails iff x is already declared in the CURRENT frame; otherwise only the current
+   frame changes, by gaining x = v *)
+Theorem C05_declare_rule : forall n st cur x e st1 v fr,
+  eval n st cur e = (st1, Val v) ->
+  nth_error (frames st1) cur = Some fr ->
+  (In x (names fr) -> eval (S n) st cur (EDecl x e) = (st1, Sig (SThrow VErr))) /\
+  (~ In x (names fr) ->
+     exists st2, eval (S n) st cur (EDecl x e) = (st2, Val VNull) /\
+       out st2 = out st1 /\
+       nth_error (frames st2) cur = Some (mkFrame (parent fr) ((x, v) :: vars fr)) /\
+       (forall f, f <> cur -> nth_error (frames st2) f = nth_error (frames st1) f) /\
+       lookup (frames st2) cur x = Some v).
+Proof. exact declare_rule. Qed.
+Print Assumptions C05_declare_rule.
+
+(* x = e: fails iff no enclosing frame declares x; otherwise rewrites x in the nearest one and
+   changes no other frame, no other variable *)
+Theorem C05_assign_rule : forall n st cur x e st1 v,
+  eval n st cur e = (st1, Val v) ->
+  (resolve (frames st1) cur x = None -> eval (S n) st cur (EAssign x e) = (st1, Sig (SThrow VErr))) /\
+  (forall g, resolve (frames st1) cur x = Some g ->
+     exists fr st2, nth_error (frames st1) g = Some fr /\ nearest (frames st1) x cur g /\
+       eval (S n) st cur (EAssign x e) = (st2, Val VNull) /\ out st2 = out st1 /\
+       nth_error (frames st2) g = Some (mkFrame (parent fr) (assoc_set x v (vars fr))) /\
+       (forall f, f <> g -> nth_error (frames st2) f = nth_error (frames st1) f) /\
+       lookup (frames st2) cur x = Some v /\
+       (forall f y, y <> x -> lookup (frames st2) f y = lookup (frames st1) f y)).
+Proof. exact assign_rule. Qed.
+Print Assumptions C05_assign_rule.
+
+(* the outcome of a call depends on store, callee and arguments, not on the calling frame *)
+Theorem C05_lexical_scoping : forall n st cur1 cur2 fe args st1 fv st2 vs,
+  eval n st cur1 fe = (st1, Val fv) -> eval n st cur2 fe = (st1, Val fv) ->
+  eval_items (eval n) st1 cur1 args = (st2, Val vs) -> eval_items (eval n) st1 cur2 args = (st2, Val vs) ->
+  eval (S n) st cur1 (ECall fe args) = apply_val (eval n) st2 fv vs /\
+  eval (S n) st cur2 (ECall fe args) = apply_val (eval n) st2 fv vs.
+Proof. exact lexical_scoping. Qed.
+Print Assumptions C05_lexical_scoping.
+
+(* a free variable of a closure is read in the scope the closure was DEFINED in *)
+Theorem C05_closure_reads_defining_scope : forall n st env y v,
+  env < List.length (frames st) -> lookup (frames st) env y = Some v ->
+  apply_val (eval (S n)) st (VClos [] (EVar y) env) [] = (fst (push_frame st env), Val v).
+Proof. exact closure_reads_defining_scope. Qed.
+Print Assumptions C05_closure_reads_defining_scope.
+
+(* closures capture variables, not values: a later write is what the next call reads *)
+Theorem C05_capture_by_variable : forall n st cur x v st' env,
+  assign st cur x v = Some st' ->
+  resolve (frames st) env x = resolve (frames st) cur x ->
+  apply_val (eval (S n)) st' (VClos [] (EVar x) env) [] = (fst (push_frame st' env), Val v).
+Proof. exact capture_by_variable. Qed.
+Print Assumptions C05_capture_by_variable.
+
+(* a fresh variable per iteration: `for (x <- le) yield \ -> x` builds one closure per element,
+   each over its own frame; calling the i-th gives the i-th element *)
+Theorem C05_per_iteration_closures : forall n st cur x le xs,
+  eval (S n) st cur le = (st, Val (VList xs)) ->
+  let st' := mkState (frames st ++ iter_frames cur x xs) (out st) in
+  let base := List.length (frames st) in
+  eval (S (S n)) st cur (EFor [CIter x le] (FYield (ELam [] (EVar x)))) = (st', Val (VList (clos_from x base xs))) /\
+  (forall i el, nth_error xs i = Some el ->
+     nth_error (clos_from x base xs) i = Some (VClos [] (EVar x) (base + i)) /\
+     forall m, apply_val (eval (S m)) st' (VClos [] (EVar x) (base + i)) [] = (fst (push_frame st' (base + i)), Val el)).
+Proof. exact per_iteration_closures. Qed.
+Print Assumptions C05_per_iteration_closures.
+
+(* loops absorb exactly one level of break / continue; return and throw pass *)
+Theorem C05_while_absorbs_one_level : forall n st cur c b st2 vc st3 r,
+  eval n (fst (push_frame st cur)) (List.length (frames st)) c = (st2, Val vc) -> truthy vc = true ->
+  eval n st2 (List.length (frames st)) b = (st3, r) ->
+  eval (S n) st cur (EWhile c b) =
+    match r with
+    | Val _ => eval n st3 cur (EWhile c b)
+    | Sig (SContinue O) => eval n st3 cur (EWhile c b)
+    | Sig (SBreak O v) => (st3, Val (match v with Some w => w | None => VNull end))
+    | Sig (SBreak (S k) v) => (st3, Sig (SBreak k v))
+    | Sig (SContinue (S k)) => (st3, Sig (SContinue k))
+    | _ => (st3, r)
+    end.
+Proof. exact while_absorbs_one_level. Qed.
+Print Assumptions C05_while_absorbs_one_level.
+
+Theorem C05_while_condition : forall n st cur c b st2 rc,
+  eval n (fst (push_frame st cur)) (List.length (frames st)) c = (st2, rc) ->
+  (forall vc, rc = Val vc -> truthy vc = false -> eval (S n) st cur (EWhile c b) = (st2, Val VNull)) /\
+  (forall s, rc = Sig s -> eval (S n) st cur (EWhile c b) = (st2, Sig s)).
+Proof. exact while_condition. Qed.
+Print Assumptions C05_while_condition.
+
+Theorem C05_for_absorbs_one_level : forall n st cur cls body,
+  eval (S n) st cur (EFor cls body) = for_result body (eval_for (eval n) cls (for_body (eval n) body) st cur []) /\
+  (forall st' acc k v, for_result body (st', acc, Sig (SBreak (S k) v)) = (st', Sig (SBreak k v))) /\
+  (forall st' acc k, for_result body (st', acc, Sig (SContinue (S k))) = (st', Sig (SContinue k))) /\
+  (forall st' acc v, for_result body (st', acc, Sig (SBreak O (Some v))) = (st', Val v)) /\
+  (forall st' acc, for_result body (st', acc, Sig (SBreak O None)) = (st', Val (finish body acc))) /\
+  (forall st' acc v, for_result body (st', acc, Sig (SReturn v)) = (st', Sig (SReturn v))) /\
+  (forall st' acc v, for_result body (st', acc, Sig (SThrow v)) = (st', Sig (SThrow v))) /\
+  (forall cb st' fr acc st'' acc',
+     cb st' fr acc = (st'', acc', Sig (SContinue O)) ->
+     eval_for (eval n) [] cb st' fr acc = (st'', acc', Val tt)).
+Proof. exact for_absorbs_one_level. Qed.
+Print Assumptions C05_for_absorbs_one_level.
+
+(* a call absorbs only Return: break / continue / throw raised in the body leave the call *)
+Theorem C05_call_absorbs_only_return : forall n st ps body env args st2 st3 r,
+  bind_params (eval n) (fst (push_frame st env)) (List.length (frames st)) ps args = (st2, Val tt) ->
+  eval n st2 (List.length (frames st)) body = (st3, r) ->
+  apply_val (eval n) st (VClos ps body env) args =
+    (st3, match r with Sig (SReturn v) => Val v | _ => r end).
+Proof. exact call_absorbs_only_return. Qed.
+Print Assumptions C05_call_absorbs_only_return.
+
+(* try intercepts only Throw; the handler runs in a fresh frame holding the thrown value *)
+Theorem C05_try_catches_only_throw : forall n st cur b x h st1 r,
+  eval n st cur b = (st1, r) ->
+  ((forall v, r <> Sig (SThrow v)) -> eval (S n) st cur (ETry b x h) = (st1, r)) /\
+  (forall v, r = Sig (SThrow v) ->
+     eval (S n) st cur (ETry b x h) =
+     eval n (mkState (frames st1 ++ [mkFrame (Some cur) [(x, v)]]) (out st1)) (List.length (frames st1)) h).
+Proof. exact try_catches_only_throw. Qed.
+Print Assumptions C05_try_catches_only_throw.
+
+(* and / or / coalesce: when the left operand decides, store and output are those after the
+   left operand: the right operand is not evaluated; otherwise the result is the right operand's *)
+Theorem C05_short_circuit : forall n st cur a b st1 v,
+  eval n st cur a = (st1, Val v) ->
+  (truthy v = false -> eval (S n) st cur (EAnd a b) = (st1, Val v)) /\
+  (truthy v = true -> eval (S n) st cur (EOr a b) = (st1, Val v)) /\
+  (v <> VNull -> eval (S n) st cur (ECoalesce a b) = (st1, Val v)) /\
+  (truthy v = true -> eval (S n) st cur (EAnd a b) = eval n st1 cur b) /\
+  (truthy v = false -> eval (S n) st cur (EOr a b) = eval n st1 cur b) /\
+  (v = VNull -> eval (S n) st cur (ECoalesce a b) = eval n st1 cur b).
+Proof. exact short_circuit. Qed.
+Print Assumptions C05_short_circuit.
+
+(* `for (x <- le; if g) yield e` with effect-free g, e is map/filter *)
+Theorem C05_yield_is_map_filter : forall n st cur x le g e xs (gf : val -> bool) (ef : val -> val),
+  eval n st cur le = (st, Val (VList xs)) ->
+  (forall st' fr el, In el xs -> nth_error (frames st') fr = Some (mkFrame (Some cur) [(x, el)]) ->
+     exists gv, eval n st' fr g = (st', Val gv) /\ truthy gv = gf el) ->
+  (forall st' fr el, In el xs -> nth_error (frames st') fr = Some (mkFrame (Some cur) [(x, el)]) ->
+     eval n st' fr e = (st', Val (ef el))) ->
+  eval (S n) st cur (EFor [CIter x le; CGuard g] (FYield e)) =
+    (mkState (frames st ++ iter_frames cur x xs) (out st), Val (VList (map ef (filter gf xs)))).
+Proof. exact yield_is_map_filter. Qed.
+Print Assumptions C05_yield_is_map_filter.
 
 (* non-vacuity: a loop variable and a variable declared in the body are gone after the loop,
    the outer x is still 1 *)
@@ -59,4 +218,38 @@ Example C05_example_scopes :
                      EFor [CIter "x" (EList [(false, EInt 5)])] (FDo (EDecl "y" (EVar "x")));
                      EList [(false, EVar "x"); (false, ETry (EVar "y") "e" (EInt 0))]] false))
   = Val (VList [VInt 1; VInt 0]).
+Proof. reflexivity. Qed.
+
+(* redeclaration in the same frame fails, shadowing in an inner frame does not, `=` reaches out *)
+Example C05_example_decl_assign :
+  snd (run 20 (ESeq [EDecl "x" (EInt 1);
+                     ECall (ELam [] (ESeq [EDecl "x" (EInt 2); EAssign "x" (EInt 3)] false)) [];
+                     ECall (ELam [] (EAssign "x" (EInt 4))) [];
+                     EList [(false, EVar "x"); (false, ETry (EDecl "x" (EInt 9)) "e" (EInt 0));
+                            (false, ETry (EAssign "u" (EInt 9)) "e" (EInt 0))]] false))
+  = Val (VList [VInt 4; VInt 0; VInt 0]).
+Proof. reflexivity. Qed.
+
+(* capture by variable + per-iteration variables + break through a call + short circuit *)
+Example C05_example_closures :
+  (let r := run 30 (ESeq [EDecl "c" (EInt 0);
+                          EDecl "f" (ELam [] (EVar "c"));
+                          EAssign "c" (EInt 5);
+                          EDecl "fs" (EFor [CIter "x" (EList [(false, EInt 1); (false, EInt 2)])] (FYield (ELam [] (EVar "x"))));
+                          EDecl "g" (ELam [] (EBreak 0 (Some (EInt 7))));
+                          EList [(false, ECall (EVar "f") []);
+                                 (false, EFor [CIter "h" (EVar "fs")] (FYield (ECall (EVar "h") [])));
+                                 (false, EWhile (EInt 1) (ECall (EVar "g") []));
+                                 (false, EAnd (EInt 0) (EPrim PPrint [EInt 1]))]] false) in
+   (snd r, out (fst r)))
+  = (Val (VList [VInt 5; VList [VInt 1; VInt 2]; VInt 7; VInt 0]), []).
+Proof. reflexivity. Qed.
+
+(* the hypotheses of yield_is_map_filter are satisfiable: x < 3 and x + 10 over [1, 5, 2] *)
+Example C05_example_map_filter :
+  snd (run 20 (EFor [CIter "x" (EList [(false, EInt 1); (false, EInt 5); (false, EInt 2)]);
+                     CGuard (EPrim PLt [EVar "x"; EInt 3])]
+                    (FYield (EPrim PAdd [EVar "x"; EInt 10]))))
+  = Val (VList (map (fun v => match v with VInt z => VInt (z + 10) | _ => v end)
+                    (filter (fun v => match v with VInt z => Z.ltb z 3 | _ => false end) [VInt 1; VInt 5; VInt 2]))).
 Proof. reflexivity. Qed.
